@@ -387,7 +387,12 @@ func (s Style) print(b *strings.Builder, n *Node, parentPrec int, right bool) {
 		s.print(b, n.A[0], 3, false)
 		b.WriteString(" " + s.word("in") + " ")
 		if n.InExpr {
-			s.print(b, n.A[1], 4, true)
+			// never wrap the list-valued operand: `in (expr)` is a list literal
+			s2 := s
+			if s2.Paren == 3 {
+				s2.Paren = 1
+			}
+			s2.print(b, n.A[1], 4, true)
 		} else {
 			b.WriteByte('(')
 			for i, a := range n.A[1:] {
